@@ -351,9 +351,9 @@ func compare(text []rune, ref reference, o observation, st *stats) []finding {
 	if o.WordStruct != "" {
 		add(keyWordStruct, 0)
 	} else if n > 0 {
-		covered := make([]bool, n)   // rune belongs to some reported word
-		endsAt := make([]bool, n+1)  // a reported word ends here
-		exact := make([]bool, n+1)   // a reported word starts here and is exactly a reference segment
+		covered := make([]bool, n)  // rune belongs to some reported word
+		endsAt := make([]bool, n+1) // a reported word ends here
+		exact := make([]bool, n+1)  // a reported word starts here and is exactly a reference segment
 		for _, w := range o.Words {
 			a, b := w.Off, w.Off+w.Len
 			ok := true
@@ -384,6 +384,7 @@ func compare(text []rune, ref reference, o observation, st *stats) []finding {
 		}
 		// completeness over the reference segments
 		a := 0
+		observablePrev := false // the previous segment already counted the shared boundary
 		for b := 1; b <= n; b++ {
 			if !ref.word[b].Break {
 				continue
@@ -394,6 +395,15 @@ func compare(text []rune, ref reference, o observation, st *stats) []finding {
 				if exact[a] {
 					st.wordsReported[z]++
 				}
+				if z == zoneMust {
+					// positions whose decision shows in WordIterator's output
+					for k := a; k <= b; k++ {
+						if k >= 1 && k < n && !(k == a && a > 0 && observablePrev) {
+							st.wordObservable[ref.word[k].Rule]++
+						}
+					}
+				}
+				observablePrev = z == zoneMust
 			}
 			if z == zoneMust && !exact[a] {
 				touched := false
@@ -422,19 +432,20 @@ func compare(text []rune, ref reference, o observation, st *stats) []finding {
 // ------------------------------------------------------------------ stats
 
 type stats struct {
-	lineRules     [uax14.NRule]int64 // interior positions only
-	lineLB10      int64
-	lineMandatory int64
-	graRules      [uax29.NGRule]int64
-	wordRules     [uax29.NWRule]int64
-	wordZones     [3]int64
-	wordsReported [3]int64
-	cases         map[string]int64
-	nontriv       map[string]int64
-	runes         int64
-	lenBuckets    [8]int64
-	reuseChecked  int64
-	hashes        []uint64
+	lineRules      [uax14.NRule]int64 // interior positions only
+	lineLB10       int64
+	lineMandatory  int64
+	graRules       [uax29.NGRule]int64
+	wordRules      [uax29.NWRule]int64
+	wordObservable [uax29.NWRule]int64
+	wordZones      [3]int64
+	wordsReported  [3]int64
+	cases          map[string]int64
+	nontriv        map[string]int64
+	runes          int64
+	lenBuckets     [8]int64
+	reuseChecked   int64
+	hashes         []uint64
 }
 
 func newStats() *stats { return &stats{cases: map[string]int64{}, nontriv: map[string]int64{}} }
@@ -487,6 +498,7 @@ func (s *stats) merge(o *stats) {
 	}
 	for i := range s.wordRules {
 		s.wordRules[i] += o.wordRules[i]
+		s.wordObservable[i] += o.wordObservable[i]
 	}
 	for i := range s.wordZones {
 		s.wordZones[i] += o.wordZones[i]
